@@ -638,33 +638,91 @@ class Interp:
         return V(Lib(fq))
 
     def module_constant(self, mod, name: str) -> frozenset:
-        """Value of a module level constant: literals (also nested displays and references to other constants) are evaluated."""
+        """Value of a module level constant: literals (also nested displays and references to other constants) and *callable
+        constants* (`itemgetter(1, 0)`, `attrgetter(...)`, `partial(f, ...)`, a lambda, a reference to a function, a dispatch table
+        of those) are evaluated; anything else is an object the interpreter knows nothing about."""
         c = mod.constants[name]
         if isinstance(c, ast.Constant):
             return V(Const(c.value))
-
-        def literal(e: ast.AST, depth: int = 0) -> bool:
-            if depth > 6:
-                return False
-            if isinstance(e, ast.Constant):
-                return True
-            if isinstance(e, (ast.Tuple, ast.List, ast.Set)):
-                return all(literal(x, depth + 1) for x in e.elts)
-            if isinstance(e, ast.Dict):
-                return all(k is not None and literal(k, depth + 1) and literal(v, depth + 1) for k, v in zip(e.keys, e.values))
-            if isinstance(e, ast.Name):
-                return e.id in mod.constants and e.id != name and literal(mod.constants[e.id], depth + 1)
-            if isinstance(e, ast.Call) and isinstance(e.func, ast.Name) and e.func.id in ("frozenset", "set", "tuple", "list", "dict", "defaultdict", "OrderedDict") and not e.keywords:
-                return all(literal(x, depth + 1) or (isinstance(x, ast.Name) and x.id in ("str", "list", "set", "dict", "int")) for x in e.args)
-            return False
-
-        if not literal(c):
+        if not self.static_expr(mod, c, frozenset({name})):
             return V(Opaque(f"{mod.name}.{name}"))
-        fi = next(iter(mod.all_funcs), None) or next(iter(self.repo.funcs.values()))
-        fr = Frame(fi, ("const", mod.name, name), {})
-        if isinstance(c, ast.Call) and c.func.id in ("defaultdict",):
+        if isinstance(c, ast.Call) and isinstance(c.func, ast.Name) and c.func.id in ("defaultdict",):
             return V(self.dict_(("const", mod.name, name), mod.relpath))
-        return self.ev(c, {}, fr)
+        return self.ev(c, {}, self.module_frame(mod, ("const", mod.name, name)))
+
+    STATIC_CALLS = {"frozenset", "set", "tuple", "list", "dict", "defaultdict", "OrderedDict", "itemgetter", "attrgetter", "methodcaller", "partial", "staticmethod", "MappingProxyType"}
+
+    def static_expr(self, mod, e: ast.AST, seen: frozenset = E, depth: int = 0) -> bool:
+        """Can the module / class level expression be evaluated without running code of the repository?  (It is built from
+        literals, displays, lambdas, references to functions / classes / other such constants and the getter / partial factories.)"""
+        if depth > 8:
+            return False
+        if isinstance(e, ast.Constant):
+            return True
+        if isinstance(e, ast.Lambda):
+            return True
+        if isinstance(e, (ast.Tuple, ast.List, ast.Set)):
+            return all(self.static_expr(mod, x, seen, depth + 1) for x in e.elts)
+        if isinstance(e, ast.Dict):
+            return all(k is not None and self.static_expr(mod, k, seen, depth + 1) and self.static_expr(mod, v, seen, depth + 1) for k, v in zip(e.keys, e.values))
+        if isinstance(e, ast.Name):
+            if e.id in mod.functions or e.id in mod.classes or e.id in mod.imports:
+                return True
+            if e.id in mod.constants:
+                return e.id not in seen and self.static_expr(mod, mod.constants[e.id], seen | {e.id}, depth + 1)
+            return e.id in ("True", "False", "None", "str", "list", "set", "dict", "int", "tuple", "frozenset", "reversed", "sorted", "len", "iter")
+        if isinstance(e, ast.Attribute):
+            # operator.itemgetter, itertools.chain.from_iterable, SomeClass.method
+            b = e.value
+            while isinstance(b, ast.Attribute):
+                b = b.value
+            return isinstance(b, ast.Name) and (b.id in mod.imports or b.id in mod.classes)
+        if isinstance(e, ast.Call):
+            f = e.func
+            fname = f.id if isinstance(f, ast.Name) else f.attr if isinstance(f, ast.Attribute) else ""
+            if fname not in self.STATIC_CALLS or not self.static_expr(mod, f, seen, depth + 1):
+                return False
+            return all(self.static_expr(mod, x, seen, depth + 1) for x in e.args) and all(k.arg is not None and self.static_expr(mod, k.value, seen, depth + 1) for k in e.keywords)
+        return False
+
+    def module_frame(self, mod, inv: tuple) -> Frame:
+        """Frame for expressions evaluated at module / class level of `mod`."""
+        fi = getattr(mod.tree, "_c03_frame_func", None)
+        if fi is None:
+            node = ast.Lambda(args=ast.arguments(posonlyargs=[], args=[], vararg=None, kwonlyargs=[], kw_defaults=[], kwarg=None, defaults=[]), body=ast.Constant(value=None))
+            node.lineno = node.col_offset = 0
+            fi = FuncInfo(name="<module>", qualname="<module>", node=node, module=mod)
+            mod.tree._c03_frame_func = fi  # type: ignore[attr-defined]
+        return Frame(fi, inv, {})
+
+    def lambda_func(self, e: ast.Lambda, fr: Frame) -> FuncInfo | None:
+        """Function info of a lambda; lambdas at module / class level are not indexed by the loader and get one here."""
+        nf = getattr(e, "_func", None)
+        if nf is None:
+            src = getattr(e, "_src", None)
+            nf = getattr(src[1], "_func", None) if src else None
+        if nf is None and fr.fi.name == "<module>":
+            nf = FuncInfo(name="<lambda>", qualname=f"<lambda@{getattr(e, 'lineno', 0)}:{getattr(e, 'col_offset', 0)}>", node=e, module=fr.fi.module)
+            e._func = nf  # type: ignore[attr-defined]
+        return nf
+
+    def class_attr(self, ci: ClassInfo, name: str, recv: frozenset | None) -> frozenset | None:
+        """Value of a class level assignment `name = <expr>` looked up on an instance (`recv`) or on the class (recv None):
+        functions become bound methods, getter / partial objects and staticmethods do not."""
+        owner = next((k for k in self.repo.mro(ci) if name in k.class_attrs), None)
+        if owner is None:
+            return None
+        ce = owner.class_attrs[name]
+        if isinstance(ce, ast.Constant):
+            return V(Const(ce.value))
+        mod = owner.module
+        if not self.static_expr(mod, ce):
+            return V(Opaque(name))
+        static = isinstance(ce, ast.Call) and isinstance(ce.func, ast.Name) and ce.func.id == "staticmethod"
+        v = self.ev(ce, {}, self.module_frame(mod, ("classattr", owner.fq, name)))
+        if recv is None or static:
+            return v
+        return frozenset(Partial(V(sh), (recv,), ()) if isinstance(sh, Fn) and sh.recv is None else sh for sh in v)
 
     # ------------------------------------------------------------------ statements
     def exec_block(self, stmts: list[ast.stmt], env: dict | None, fr: Frame) -> dict | None:
@@ -1270,10 +1328,7 @@ class Interp:
                 return self.ev(e.orelse, env, fr)
             return self.ev(e.body, env, fr) | self.ev(e.orelse, env, fr)
         if isinstance(e, ast.Lambda):
-            nf = getattr(e, "_func", None)
-            if nf is None:
-                src = getattr(e, "_src", None)
-                nf = getattr(src[1], "_func", None) if src else None
+            nf = self.lambda_func(e, fr)
             if nf is None:
                 return self.top("lambda without function info")
             self.closures.append(env)
@@ -1486,7 +1541,12 @@ class Interp:
     def dict_lookup(self, ref: Ref, key: frozenset, node: ast.AST, fr: Frame) -> frozenset:
         lk = frozenset().union(*[self.live(s.eids - s.gone) for s in self.scalars(key)]) if key else E
         out: set = set()
-        for _k, v in list(self.cell(ref).entries):
+        entries = list(self.cell(ref).entries)
+        if len(key) == 1 and isinstance(next(iter(key)), Const) and entries and all(len(k) == 1 and isinstance(next(iter(k)), Const) for k, _v in entries):
+            # a table with constant keys read with a constant key (`{True: keep, False: flip}[flag]`): only that entry
+            kc = next(iter(key)).value
+            entries = [(k, v) for k, v in entries if type(next(iter(k)).value) is type(kc) and next(iter(k)).value == kc]
+        for _k, v in entries:
             if lk:
                 out |= self.map_scalars(v, lambda s: s if (lk <= s.assoc or not (s.srcs or s.roles)) else replace(s, assoc=s.assoc | lk), (id(node), fr.inv, "lk", ref.key))
             else:
@@ -1520,8 +1580,7 @@ class Interp:
                 elif m is not None:
                     out.add(Fn(m, V(sh)))
                 elif c.ci is not None and any(name in k.class_attrs for k in self.repo.mro(c.ci)):
-                    ce = next(k.class_attrs[name] for k in self.repo.mro(c.ci) if name in k.class_attrs)
-                    out |= V(Const(ce.value)) if isinstance(ce, ast.Constant) else V(Opaque(name))
+                    out |= self.class_attr(c.ci, name, V(sh))
                 elif name.startswith("__") and name.endswith("__"):
                     out.add(Opaque(f".{name}"))
                 else:
@@ -1535,6 +1594,8 @@ class Interp:
                 m = self.repo.lookup_method(ci, name) if ci else None
                 if m is not None:
                     out.add(Fn(m, V(sh) if m.is_classmethod else None))
+                elif ci is not None and any(name in k.class_attrs for k in self.repo.mro(ci)):
+                    out |= self.class_attr(ci, name, None)
                 else:
                     out.add(Opaque(f"{sh.fq}.{name}"))
             elif isinstance(sh, Lib):
@@ -1626,6 +1687,11 @@ class Interp:
             for f in sh.fn:
                 out |= self.apply(f, [*sh.args, *args], {**dict(sh.kwargs), **kwargs}, call, env, fr)
             return frozenset(out)
+        if isinstance(sh, Getter) and sh.kind == "call" and args:
+            out = set()
+            for x in args[0]:
+                out |= self.method(x, sh.args[0], list(sh.args[1]), dict(sh.args[2]), call, env, fr)
+            return frozenset(out)
         if isinstance(sh, Getter) and args:
             parts = []
             for a in sh.args:
@@ -1646,6 +1712,8 @@ class Interp:
                             got |= self.top(f"itemgetter on {type(x).__name__}")
                     parts.append(frozenset(got))
             return parts[0] if len(parts) == 1 else V(Tup(tuple(parts), self.site(fr, call)))
+        if isinstance(sh, Ref) and sh.kind == "obj" and self.cell(sh).ci is not None and self.repo.lookup_method(self.cell(sh).ci, "__call__") is not None:
+            return self.call_fn(self.repo.lookup_method(self.cell(sh).ci, "__call__"), V(sh), args, kwargs, call, fr, caller_env=env)
         if isinstance(sh, (Opaque, Sc)):
             if any(isinstance(x, Ref) and x.kind in ("coll", "dict") for a in [*args, *kwargs.values()] for x in a):
                 return self.top(f"call of an unknown callable with a collection argument: `{norm(call, 60)}`")
@@ -1785,9 +1853,9 @@ class Interp:
                 if m.is_staticmethod:
                     return self.call_fn(m, None, args, kwargs, call, fr, caller_env=env)
                 return self.call_fn(m, V(Cls(c.ci.fq)) if m.is_classmethod else V(sh), args, kwargs, call, fr, caller_env=env)
-            if name in c.fields:
+            if name in c.fields or (c.ci is not None and any(name in k.class_attrs for k in self.repo.mro(c.ci))):
                 out: set = set()
-                for f in c.fields[name]:
+                for f in (c.fields[name] if name in c.fields else self.class_attr(c.ci, name, V(sh))):
                     out |= self.apply(f, args, kwargs, call, env, fr)
                 return frozenset(out)
             return self.top(f"method {name} not found on {c.ci.fq if c.ci else '?'}")
@@ -1798,6 +1866,11 @@ class Interp:
         if isinstance(sh, Cls):
             ci = self.repo.classes.get(sh.fq)
             m = self.repo.lookup_method(ci, name) if ci else None
+            if m is None and ci is not None and any(name in k.class_attrs for k in self.repo.mro(ci)):
+                out = set()
+                for f in self.class_attr(ci, name, None):
+                    out |= self.apply(f, args, kwargs, call, env, fr)
+                return frozenset(out)
             if m is None:
                 return self.top(f"{sh.fq}.{name} not found")
             if m.is_classmethod:
@@ -1953,6 +2026,65 @@ class Interp:
             return V(Getter("item" if "itemgetter" in name else "attr", tuple(consts)))
         if name in ("functools.partial", "partial") and args:
             return V(Partial(args[0], tuple(args[1:]), tuple(sorted(kwargs.items()))))
+        if name in ("staticmethod", "types.MappingProxyType", "MappingProxyType") and len(args) == 1:
+            return args[0]
+        if name in ("operator.methodcaller", "methodcaller") and args:
+            names = [c.value for c in args[0] if isinstance(c, Const) and isinstance(c.value, str)]
+            if len(names) != 1 or len(args[0]) != 1:
+                return self.top(f"`{norm(call, 60)}` with a computed method name")
+            return V(Getter("call", (names[0], tuple(args[1:]), tuple(sorted(kwargs.items())))))
+        if name in ("itertools.starmap", "starmap") and len(args) == 2:
+            # starmap(f, tuples): f(*t) per element
+            r = self.coll(key, site)
+            e = self.eid((id(call), "starmap", fr.inv), site)
+            first = self.elems(args[1])
+            self.active.append(e)
+            try:
+                for alt in [V(sh) for sh in first]:
+                    cur = self.retag(alt, e, (id(call), fr.inv, "starmap"))
+                    for t in cur:
+                        if isinstance(t, Tup):
+                            for f in args[0]:
+                                self.add(r, self.apply(f, list(t.items), {}, call, env, fr))
+                        else:
+                            self.add(r, V(t) if isinstance(t, Top) else self.top(f"`{norm(call, 60)}`: elements of unknown shape are spread into arguments"))
+            finally:
+                self.active.pop()
+            return V(r)
+        if name in ("itertools.repeat", "repeat") and args:
+            return V(self.coll(key, site, args[0]))
+        if name in ("itertools.islice", "islice", "itertools.takewhile", "takewhile", "itertools.dropwhile", "dropwhile", "itertools.filterfalse", "filterfalse", "itertools.compress", "compress") and args:
+            src = args[0] if short in ("islice", "compress") else args[-1]
+            r = self.coll(key, site, self.elems(src))
+            self.cell(r).order = self.order_of(src)
+            grouped = any(self.live(sc.assoc - sc.gone) for sc in self.scalars(self.elems(src)))
+            self.add_part(r, [("part", site, f"`{norm(call, 60)}` keeps only some elements", grouped)])
+            return V(r)
+        if name in ("itertools.zip_longest", "zip_longest"):
+            r = self.coll(key, site)
+            self.add(r, V(Tup(tuple(self.elems(a) for a in args), site)))
+            return V(r)
+        if name in ("functools.reduce", "reduce") and len(args) >= 2:
+            # fold: the accumulator is whatever the function returns for (accumulator, element), to a fixpoint
+            first = self.elems(args[1])
+            acc = args[2] if len(args) > 2 else first
+            for _round in range(4):
+                nxt: set = set(acc)
+                for f in args[0]:
+                    nxt |= self.apply(f, [frozenset(acc), first], {}, call, env, fr)
+                if frozenset(nxt) == acc:
+                    break
+                acc = frozenset(nxt)
+            return frozenset(acc)
+        if name.startswith("operator.") and short.strip("_") in ("or", "ior", "add", "iadd", "concat", "iconcat", "and", "iand", "sub", "isub", "xor", "ixor") and len(args) == 2:
+            op = {"or": ast.BitOr, "ior": ast.BitOr, "add": ast.Add, "iadd": ast.Add, "concat": ast.Add, "iconcat": ast.Add, "and": ast.BitAnd, "iand": ast.BitAnd, "sub": ast.Sub, "isub": ast.Sub, "xor": ast.BitXor, "ixor": ast.BitXor}[short.strip("_")]()
+            return self.binop(args[0], args[1], op, call, fr)
+        if args and len(name.split(".")) == 2 and name.split(".")[0] in ("set", "frozenset", "list", "dict", "str", "tuple"):
+            # unbound method of a builtin type: set.union(a, b), str.join(sep, xs), list.append(xs, x)
+            out = set()
+            for sh in args[0]:
+                out |= self.method(sh, short, args[1:], kwargs, call, env, fr)
+            return frozenset(out)
         if name in ("itertools.groupby", "groupby") and args:
             r = self.coll(key, site)
             keyfn = args[1] if len(args) > 1 else kwargs.get("key")
